@@ -751,22 +751,26 @@ Qed.
 
 (** ** Which hierarchies satisfy the guard *)
 
-(** The decision is: the explicit flag, else follow [slots] unless the class body
-    brings its own pair and auto-detection is on. *)
-Lemma gs_decision_table_l c :
-  gs_decision c =
+(** The decision is: the explicit flag, else follow [slots] — or regenerate when an
+    attrs-generated pair would be inherited — unless the class body brings its own
+    pair (auto-detected, or simply hiding the inherited one). *)
+Lemma gs_decision_table_l c inh :
+  gs_decision c inh =
   match s_gs c with
   | Some flag => flag
-  | None => s_slots c && negb (s_autodetect c && s_usergs c)
+  | None => negb (s_autodetect c && s_usergs c) && (s_slots c || (negb (s_usergs c) && inh))
   end.
-Proof. unfold gs_decision. destruct (s_gs c), (s_slots c), (s_autodetect c), (s_usergs c); reflexivity. Qed.
+Proof.
+  unfold gs_decision.
+  destruct (s_gs c), (s_slots c), (s_autodetect c), (s_usergs c), inh; reflexivity.
+Qed.
 
 Lemma names_eqb_refl l : list_eqb Nat.eqb l l = true.
 Proof. now apply (list_eqb_spec Nat.eqb Nat.eqb_eq). Qed.
 
 (** A class that generates its own pair (any mixture of bases below it). *)
 Lemma wf_leaf_generated_l c bases o h :
-  gs_decision c = true ->
+  gs_decision c (is_gen (resolve bases)) = true ->
   old_proto o && is_nil (attr_names (c :: bases)) && s_cache c = false ->
   wf (c :: bases) o h = true.
 Proof.
@@ -789,7 +793,18 @@ Lemma wf_all_slots_l c bases o h :
 Proof.
   intros Hall Hk. inversion Hall as [|? ? (Hs & Hg & Hu) _]; subst.
   apply wf_leaf_generated_l; [|assumption].
-  unfold gs_decision. now rewrite Hg, Hu, andb_false_r.
+  unfold gs_decision. now rewrite Hg, Hu, Hs, andb_false_r.
+Qed.
+
+(** Since the K4 fix: a class with default arguments below a class whose pair is
+    attrs-generated regenerates its own pair — dict or slotted alike. *)
+Lemma wf_regenerates_l c bases o h :
+  s_gs c = None -> s_usergs c = false -> is_gen (resolve bases) = true ->
+  old_proto o && is_nil (attr_names (c :: bases)) && s_cache c = false ->
+  wf (c :: bases) o h = true.
+Proof.
+  intros Hg Hu Hi Hk. apply wf_leaf_generated_l; [|assumption].
+  unfold gs_decision. rewrite Hg, Hu, Hi, andb_false_r. cbn. apply orb_true_r.
 Qed.
 
 Lemma all_dict_facts : forall m, Forall plain_dict m ->
@@ -798,7 +813,7 @@ Proof.
   induction m as [|c bases IH]; intros H; [auto|].
   inversion H as [|? ? (Hs & Hg & Hu) Hb]; subst.
   destruct (IH Hb) as (I1 & I2 & I3). cbn [resolve slotnames slots_truthy].
-  unfold gs_of, gs_decision. rewrite Hg, Hu, Hs, andb_false_r. cbn. auto.
+  rewrite I1. unfold gs_of, gs_decision. rewrite Hg, Hu, Hs, andb_false_r. cbn. auto.
 Qed.
 
 (** Single build mode, all dict classes: every operation and history except the
@@ -821,6 +836,7 @@ Definition ex_dict_cache : cspec := C false false true false None false false tr
 Definition ex_slots_base : cspec := C true false false true None false false true [0].
 Definition ex_slots_leaf : cspec := C true false true true None false false true [1; 2].
 Definition ex_dict_leaf : cspec := C false false false false None false false false [1].
+Definition ex_dict_leaf_optout : cspec := C false false false false (Some false) false false false [1].
 Definition ex_fv (n : fname) : val := VH (10 + n).
 
 (** The guard holds and the theorem applies: slotted caching class over a slotted
@@ -856,20 +872,32 @@ Lemma K2_slots_refuted_l :
   post_ok [c] [PHash; PMut 0 (VH 7)] (observe [c] ex_fv [PHash; PMut 0 (VH 7)] OCopy) = false.
 Proof. vm_compute; reflexivity. Qed.
 
-(** K4: a dict attrs class below a slotted attrs class loses its own fields, under
-    every operation. *)
+(** K4 (narrowed by the fix): a class that explicitly opts out
+    ([getstate_setstate=False]) below a class whose pair is generated still inherits
+    that pair and loses its own fields, under every operation … *)
 Lemma K4_refuted_l :
   forallb (fun o =>
-     match observe [ex_dict_leaf; ex_slots_base] ex_fv [] o with
+     match observe [ex_dict_leaf_optout; ex_slots_base] ex_fv [] o with
      | Ob TOk [FEq; FMissing] EqAttrErr _ _ => true
      | _ => false
      end) [OCopy; ODeep; OPickle 0; OPickle 2; OPickle 5; OLegacy] = true.
 Proof. vm_compute; reflexivity. Qed.
 
-(** K4, cache variant: no field lost, but the inherited [__setstate__] of a base
-    without [cache_hash] leaves the subclass's cache unset: hash(copy) raises. *)
+(** … while with the default [getstate_setstate=None] the same class now
+    regenerates its own pair and round-trips. *)
+Lemma K4_fixed_l :
+  forallb (fun o =>
+     wf [ex_dict_leaf; ex_slots_base] o []
+     && post_ok [ex_dict_leaf; ex_slots_base] []
+          (observe [ex_dict_leaf; ex_slots_base] ex_fv [] o))
+    [OCopy; ODeep; OPickle 0; OPickle 2; OPickle 5; OLegacy] = true
+  /\ gs_kinds [ex_dict_leaf; ex_slots_base] = [GGen; GGen].
+Proof. split; vm_compute; reflexivity. Qed.
+
+(** K4, cache variant (explicit opt-out): no field lost, but the inherited
+    [__setstate__] of a base without [cache_hash] leaves the subclass's cache unset. *)
 Lemma K4_cache_refuted_l :
-  let leaf := C false false true false None false false true [] in
+  let leaf := C false false true false (Some false) false false true [] in
   observe [leaf; ex_slots_base] ex_fv [] ODeep = Ob TOk [FEq] EqTrue HsOk HoAttrErr.
 Proof. vm_compute; reflexivity. Qed.
 
@@ -896,5 +924,5 @@ Proof. split; vm_compute; reflexivity. Qed.
 Lemma roundtrip_unguarded_refuted_l :
   exists m fv h o, post_ok m h (observe m fv h o) = false.
 Proof.
-  exists [ex_dict_leaf; ex_slots_base], ex_fv, [], OCopy. vm_compute; reflexivity.
+  exists [ex_dict_leaf_optout; ex_slots_base], ex_fv, [], OCopy. vm_compute; reflexivity.
 Qed.
